@@ -252,15 +252,21 @@ impl RttTracker {
             final(self).last_keepalive_sent_ms == old(self).last_keepalive_sent_ms,
     { unimplemented!() }
 }
+impl RttTracker {
+    pub open spec fn spec_gradient(&self) -> f64 { spec_f64_max(self.rtt_min_fast_ms.sub_spec(self.rtt_min_slow_ms), 0.0f64) }
+    pub open spec fn spec_queue_building(&self) -> bool {
+        self.kalman_rtt.initialized && spec_f64_is_finite(self.rtt_min_ms)
+        && fgt(self.spec_gradient(), spec_f64_max((3.0f64).mul_spec(self.rtt_masd_ms), (0.05f64).mul_spec(self.rtt_min_ms)))
+    }
+}
 #[verifier::external_body] pub fn vecdeque_f64_clear(v: &mut VecDeque<f64>) { v.clear(); }
 '''
 
 CONN_FLOAT_STUBS = r'''
 impl SrtlaConnection {
-    pub uninterp spec fn spec_queue_building(&self) -> bool;
-    // RttTracker::queue_building_suspected: float comparisons over the RTT floor windows (outside the subset)
-    #[verifier::external_body]
-    pub fn queue_building_suspected(&self) -> (r: bool) ensures r == self.spec_queue_building() { unimplemented!() }
+    // the standing-queue signal as the documented function of the tracker's floors (float operations uninterpreted): the real bodies of
+    // RttTracker::rtt_gradient_ms / queue_building_suspected and of the wrapper are verified against it
+    pub open spec fn spec_queue_building(&self) -> bool { self.rtt.spec_queue_building() }
     // BitrateTracker::calculate: float division; writes the bitrate tracker only (frame assumption, syntactic audit)
     #[verifier::external_body]
     pub fn calculate_bitrate(&mut self, now_ms: u64) ensures final(self).same_except_bitrate(old(self)) { unimplemented!() }
